@@ -28,8 +28,9 @@ import (
 type StepObs struct {
 	Res     string         // result class
 	Raw     string         // GET /config/ as abstract text
-	Count   [NAddr]int     // listenerPool usage count per address
-	Tags    [NAddr][]int   // tags answering fresh connections on the address (sorted, distinct)
+	Count   [NSock]int     // listenerPool usage count per socket (0‥7 TCP addresses, 8 the unix socket)
+	Tags    [NSock][]int   // tags answering fresh connections on the socket (sorted, distinct)
+	UMode   int            // permission bits of the unix socket file, -1 if there is no such file
 	Events  []string       // probe events of this operation, in real order
 	MPool   [NAddr]int     // references in the guest-module usage pool, per key
 	Writers [NAddr]int     // references in caddy's writers pool: [0] = stderr (relative to the start of the case), [k] = probe writer k
@@ -66,6 +67,26 @@ func allocAddrs() {
 	for _, ln := range hold {
 		ln.Close()
 	}
+	if privDir != "" {
+		unixSeq++
+		unixPath = fmt.Sprintf("%s/u%d.sock", privDir, unixSeq)
+		addrs[8] = "unix/" + unixPath
+		addrs[9] = "unix/" + unixPath + "|0600"
+		addrs[10] = "unix/" + unixPath + "|0660"
+	}
+}
+
+var unixSeq int
+
+// unixClient talks HTTP over the unix socket file.
+var unixClient = &http.Client{
+	Timeout: 2 * time.Second,
+	Transport: &http.Transport{
+		DisableKeepAlives: true,
+		DialContext: func(ctx context.Context, _, _ string) (net.Conn, error) {
+			return (&net.Dialer{Timeout: time.Second}).DialContext(ctx, "unix", unixPath)
+		},
+	},
 }
 
 func setup() {
@@ -274,13 +295,17 @@ func observedOrder(ord []string, phase byte, err error, re *regexp.Regexp) []int
 
 func sample(a int, count int) []int {
 	url := "http://" + addrs[a] + "/"
+	cl := client
+	if a >= NAddr {
+		url, cl = "http://unix.invalid/", unixClient
+	}
 	seen := map[int]bool{}
 	tries := 1
 	if count > 1 {
 		tries = 64
 	}
 	for i := 0; i < tries; i++ {
-		resp, err := client.Get(url)
+		resp, err := cl.Get(url)
 		if err != nil {
 			if count == 0 {
 				break
@@ -313,12 +338,20 @@ func observeSocks(o *StepObs) {
 		o.Count[a] = caddy.ListenerUsage("tcp", addrs[a])
 		o.Tags[a] = sample(a, o.Count[a])
 	}
+	// the unix socket: the pool key is the path WITHOUT permission bits; reachability is a fresh
+	// connection through the socket file
+	// (no usage count: listenerPool counts only the first listener of a unix socket; Count[8] stays 0)
+	o.Tags[NAddr] = sample(NAddr, 0)
+	o.UMode = -1
+	if fi, err := os.Stat(unixPath); err == nil {
+		o.UMode = int(fi.Mode().Perm())
+	}
 }
 
 func socksEqual(o *StepObs, want map[int][]int) bool {
-	for a := 0; a < NAddr; a++ {
+	for a := 0; a < NSock; a++ {
 		w := want[a]
-		if o.Count[a] != len(w) {
+		if a < NAddr && o.Count[a] != len(w) {
 			return false
 		}
 		ws := sortDedupInts(w)
@@ -353,7 +386,7 @@ func wantSocks(running *Cfg) map[int][]int {
 	}
 	for _, a := range running.Apps {
 		for _, ad := range a.Listen {
-			w[ad] = append(w[ad], a.Tag)
+			w[SockID(ad)] = append(w[SockID(ad)], a.Tag)
 		}
 	}
 	return w
@@ -647,8 +680,10 @@ func SocksEqual(o StepObs, want map[int][]int) bool { return socksEqual(&o, want
 
 func ShowWant(want map[int][]int) string {
 	var parts []string
-	for a := 0; a < NAddr; a++ {
-		if w := want[a]; len(w) > 0 {
+	for a := 0; a < NSock; a++ {
+		if w := want[a]; len(w) > 0 && a == NAddr {
+			parts = append(parts, fmt.Sprintf("%d:u:%s", a, showNats(sortDedupInts(w))))
+		} else if len(w) > 0 {
 			parts = append(parts, fmt.Sprintf("%d:%d:%s", a, len(w), showNats(sortDedupInts(w))))
 		}
 	}
